@@ -738,6 +738,7 @@ End TaffyRealInstance.
    (Proofs/EngineRealTotal.v): C01_real_cache_engine_total and its two instances below. *)
 From TV Require Proofs.EngineTotal Proofs.TaffyTotal Proofs.BlockAbsLocal Model.BlockAlg Model.BlockEngine Model.BlockAbs.
 From TV Require Model.EngineReal Proofs.EngineRealTotal Proofs.TaffyRealTotal Model.TaffyEngineReal Model.BlockEngineReal.
+From TV Require Proofs.TaffyRealPassesTotal Model.BlockChainReal.
 Module TaffyTotality.
   Import Num.Num Model.Common Model.Leaf Model.FlexAlgBase Model.BlockFlexEngine Model.TaffyEngine Model.TaffyRoot.
 
@@ -819,6 +820,69 @@ Module TaffyTotality.
       exists o t', BlockEngineReal.blr_memo teq pre BlockAbs.abs_child_block fuel t i = Some (o, t').
   Proof. intros T N teq pre fuel t i Hh. apply TaffyRealTotal.blr_memo_total; [apply BlockAbsLocal.abs_child_block_local|exact Hh]. Qed.
   Print Assumptions C01_real_bl_engine_total.
+
+  (* wave 9a: the real-cache WRAPPERS are total too (Proofs/TaffyRealPassesTotal.v: a pass keeps the skeleton -- gmemo_skel, greset and
+     set_unrounded_layout on the root do not change it -- hence the height): compute_root_layout and any sequence of passes of the complete
+     engine (`trl_compute_root`, `trl_passes`, `trl_layout_passes`) and of the block engine (`blr_passes`, `blr_layout_passes`), for every
+     ghost equality, cache content, counters and list of available spaces; fuel >= number of levels suffices *)
+  Theorem C01_real_taffy_compute_root_total :
+    forall (T : Type) (N : Num T) (teq : T -> T -> bool) (fuel : nat) (t : @TaffyEngineReal.trtree T) (avail : Size (AvailableSpace T)),
+      EngineRealTotal.gheight (TStyle T) (FLay T) (EngineReal.rcache (FIn T) (LayoutOutput T)) t <= fuel ->
+      exists t', TaffyEngineReal.trl_compute_root teq fuel t avail = Some t' /\
+                 EngineRealTotal.gheight (TStyle T) (FLay T) (EngineReal.rcache (FIn T) (LayoutOutput T)) t'
+                 = EngineRealTotal.gheight (TStyle T) (FLay T) (EngineReal.rcache (FIn T) (LayoutOutput T)) t.
+  Proof. intros T N teq fuel t avail Hh. apply TaffyRealPassesTotal.trl_compute_root_total. exact Hh. Qed.
+  Print Assumptions C01_real_taffy_compute_root_total.
+
+  Theorem C01_real_taffy_passes_total :
+    forall (T : Type) (N : Num T) (teq : T -> T -> bool) (fuel : nat) (t : @TaffyEngineReal.trtree T)
+           (avails : list (Size (AvailableSpace T))),
+      EngineRealTotal.gheight (TStyle T) (FLay T) (EngineReal.rcache (FIn T) (LayoutOutput T)) t <= fuel ->
+      exists ls t', TaffyEngineReal.trl_passes teq fuel t avails = Some (ls, t').
+  Proof. intros T N teq fuel t avails Hh. apply TaffyRealPassesTotal.trl_passes_total. exact Hh. Qed.
+  Print Assumptions C01_real_taffy_passes_total.
+
+  Theorem C01_real_taffy_layout_passes_total :
+    forall (T : Type) (N : Num T) (teq : T -> T -> bool) (fuel : nat) (k : sk (TStyle T)) (avails : list (Size (AvailableSpace T))),
+      EngineTotal.sheight (TStyle T) k <= fuel ->
+      exists ls t', TaffyEngineReal.trl_layout_passes teq fuel k avails = Some (ls, t').
+  Proof. intros T N teq fuel k avails Hh. apply TaffyRealPassesTotal.trl_layout_passes_total. exact Hh. Qed.
+  Print Assumptions C01_real_taffy_layout_passes_total.
+
+  Theorem C01_real_bl_passes_total :
+    forall (T : Type) (N : Num T) (teq : T -> T -> bool) (pre : Block.BStyle T -> BlockAlg.BIn T -> BlockAlg.BIn T) (fuel : nat)
+           (t : @BlockEngineReal.brtree T) (avails : list (Block.BSize (Block.Avail T))),
+      EngineRealTotal.gheight (BlockEngine.BNode T) (BlockAlg.BLayout T) (EngineReal.rcache (BlockAlg.BIn T) (Block.ChildOut T)) t <= fuel ->
+      exists ls, BlockEngineReal.blr_passes teq pre BlockAbs.abs_child_block fuel t avails = Some ls.
+  Proof.
+    intros T N teq pre fuel t avails Hh. apply TaffyRealPassesTotal.blr_passes_total; [apply BlockAbsLocal.abs_child_block_local|exact Hh].
+  Qed.
+  Print Assumptions C01_real_bl_passes_total.
+
+  Theorem C01_real_bl_layout_passes_total :
+    forall (T : Type) (N : Num T) (teq : T -> T -> bool) (pre : Block.BStyle T -> BlockAlg.BIn T -> BlockAlg.BIn T) (fuel : nat)
+           (k : sk (BlockEngine.BNode T)) (avails : list (Block.BSize (Block.Avail T))),
+      EngineTotal.sheight (BlockEngine.BNode T) k <= fuel ->
+      exists ls, BlockEngineReal.blr_layout_passes teq pre BlockAbs.abs_child_block fuel k avails = Some ls.
+  Proof.
+    intros T N teq pre fuel k avails Hh.
+    apply TaffyRealPassesTotal.blr_layout_passes_total; [apply BlockAbsLocal.abs_child_block_local|exact Hh].
+  Qed.
+  Print Assumptions C01_real_bl_layout_passes_total.
+
+  (* the premises are satisfiable: the 10-node example tree has 3 levels, so two real-cache passes with fuel 3 succeed; the block chain
+     of depth d of C16 (Model/BlockChainReal.v) has d + 1 levels, so the fuel `depth + 4` of `chain_counts` always suffices *)
+  Example C01_real_passes_total_example :
+    (exists ls t', TaffyEngineReal.trl_layout_passes TaffyKey.xq_seqb 3%nat TaffyExample.ex_tree
+                     [mkSize MaxContent MaxContent; mkSize MinContent MaxContent] = Some (ls, t')) /\
+    forall (T : Type) (N : Num T) (teq : T -> T -> bool) mix (d : nat) avails,
+      exists ls, BlockEngineReal.blr_layout_passes teq BlockEngine.block_pre BlockAbs.abs_child_block (d + 4)
+                   (BlockChainReal.chain mix d) avails = Some ls.
+  Proof.
+    split; [apply TaffyRealPassesTotal.trl_layout_passes_total; vm_compute; auto|].
+    intros T N teq mix d avails. apply TaffyRealPassesTotal.chain_layout_passes_total.
+  Qed.
+  Print Assumptions C01_real_passes_total_example.
 
   (* the premise is satisfiable: the 10-node example tree of C01_taffy_engine_example (all container kinds) has 3 levels *)
   Example C01_taffy_engine_total_example :
